@@ -194,6 +194,10 @@ def _fit_check(c, paths):
     obs = []
     env = c.st.env
     n_min, oc, fmt, fout = env['n_data_min'], env['output_convolved'], env['output_format'], env['fout']
+    # the threshold and the selector are the ARGUMENTS the caller gave, not whatever the function's locals hold by now
+    given = getattr(c.interp, 'fit_given', None)
+    if given is not None:
+        n_min, fmt = given['n_data_min'], given['output_format']
     for s, ev, status in paths:
         calls = [(e[1].split('.')[-1], e[2]) for e in ev if e[0] == 'call']
         rets = dict((e[1].split('.')[-1], e[2]) for e in ev if e[0] == 'ret')
@@ -240,6 +244,11 @@ class FitMain(Contract):
     assume_pre_of = (FITTER + '.fit', FITINFO + '.keep')
 
     def setup(self, c, variant):
+        args = self._args(c, variant)
+        c.interp.fit_given = dict(n_data_min=args['n_data_min'], output_format=args['output_format'])
+        return args
+
+    def _args(self, c, variant):
         return dict(data='data.txt', filter_names=c.list([]), apertures=Opaque('apertures'), model_dir='models_dir', output='out.fitinfo',
                     n_data_min=c.int('n_data_min'), extinction_law=c.obj('sedfitter.extinction.extinction.Extinction', _wav=None, _chi=None),
                     av_range=(c.real('av_lo'), c.real('av_hi')), distance_range=Opaque('distance_range'), output_format=('F', c.real('sel')),
